@@ -358,11 +358,8 @@ class _Builder:
                     h = make_string(self.rng, self.rng.choice(sorted(classes_of(h) - {'newline'}) or ['space']), self.tier, False)
                 else:
                     h = 'q'
-                if shape >= 5:
-                    args += ['-D', f'{self.tag()}={h}']     # the two-token spelling of the same option
-                else:
-                    args.append(f'-D{self.tag()}={h}')
-                payloads.append(h)
+                args.append(f'-D{self.tag()}={h}')      # (no two-token spelling here: meson's configure-time sanity check
+                payloads.append(h)                      # hands these lists to the real toolchain in its own way)
                 continue
             if shape >= 5:
                 # two-token spellings `-D NAME=val`, `-U NAME`, `-isystem dir`: both tokens must arrive, adjacent, in order.
